@@ -11,8 +11,13 @@ mods = sys.argv[1].split(',')
 filt = sys.argv[2] if len(sys.argv) > 2 else ''
 timeout = float(sys.argv[3]) if len(sys.argv) > 3 else 30
 reg = Registry()
+import os
 for m in mods:
-    importlib.import_module('contracts.' + m).register(reg)
+    mod = importlib.import_module('contracts.' + m)
+    if os.environ.get('CFGS'):
+        mod.register(reg, configs=[tuple(int(x) for x in c.split(',')) for c in os.environ['CFGS'].split(';')])
+    else:
+        mod.register(reg)
 eng = Engine(reg)
 t0 = time.time()
 for c in reg.by_target.values():
